@@ -1,17 +1,20 @@
 #!/usr/bin/env python3
 """Development aid: revert each 'fix:' commit on a scratch worktree and confirm the corresponding check reports a violation.
-usage: tools/natural_mutants.py [tier] [only-property]   -> writes /verif/out/natural_mutants.json"""
+usage: [NM_COMMITS=a,b] tools/natural_mutants.py [tier] [only-property|-]   -> writes /verif/out/natural_mutants.json"""
 import json, os, subprocess, sys, shutil
 VERIF = os.path.dirname(os.path.dirname(os.path.abspath(__file__)))
 tier = sys.argv[1] if len(sys.argv) > 1 else "quick"
 only = sys.argv[2] if len(sys.argv) > 2 else None
+commits = set(os.environ.get("NM_COMMITS", "").split(",")) - {""}
 k = json.load(open(os.path.join(VERIF, "known_findings.json")))
 res = []
 seen = set()
 for f in k["findings"]:
     if f["status"] != "fixed" or f["commit"] in seen:
         continue
-    if only and f["property"] != only:
+    if only and only != "-" and f["property"] != only:
+        continue
+    if commits and f["commit"] not in commits:
         continue
     seen.add(f["commit"])
     wt = "/tmp/nm-%s" % f["commit"]
@@ -32,5 +35,5 @@ for f in k["findings"]:
     print(json.dumps(entry), flush=True)
     res.append(entry)
 os.makedirs(os.path.join(VERIF, "out"), exist_ok=True)
-json.dump(res, open(os.path.join(VERIF, "out", "natural_mutants.json"), "w"), indent=1)
+json.dump(res, open(os.path.join(VERIF, "out", "natural_mutants%s.json" % ("-" + tier if commits else "")), "w"), indent=1)
 print("detected %d / %d" % (sum(1 for e in res if e["result"] == "detected"), len(res)))
